@@ -64,6 +64,7 @@ package restful
 //@ requires wf: wfRoot(tokens)
 //@ ensures matches: result0 == rootAdmits(tokens, requestTokens)
 //@ ensures score: result0 ==> result1 == rootScore(tokens, len(tokens))
+//@ ensures nonneg: result1 >= 0
 //@ nopanic
 //@ modifies nothing
 //@ opt tokens.tokens ["a","b","","{v}","{v:[0-9]+}"]
@@ -72,7 +73,33 @@ package restful
 //@ opt maxlen.requestTokens 3
 //@ loop 0 invariant range: 0 <= i && i <= len(tokens)
 //@ loop 0 invariant admitted: forall(0, i, func(k int) bool { return rootTokAdmits(tokens[k], requestTokens[k]) })
-//@ loop 0 invariant score: score == rootScore(tokens, i)
+//@ loop 0 invariant score: score == rootScore(tokens, i) && score >= 0
+
+//@ func (CurlyRouter).detectWebService
+//@ props C02 C03 C18
+//@ requires wf: forall(0, len(webServices), func(k int) bool { return wfService(webServices[k]) })
+//@ ensures none: bestIdx(webServices, requestTokens, len(webServices)) < 0 ==> result == nil
+//@ ensures best: bestIdx(webServices, requestTokens, len(webServices)) >= 0 ==> result == webServices[bestIdx(webServices, requestTokens, len(webServices))]
+//@ nopanic
+//@ modifies nothing
+//@ opt opaque rootScore rootAdmits wfRoot
+//@ loop 0 invariant none: bestIdx(webServices, requestTokens, it_i) < 0 ==> best == nil && score == -1
+//@ loop 0 invariant some: bestIdx(webServices, requestTokens, it_i) >= 0 ==> best == webServices[bestIdx(webServices, requestTokens, it_i)] && score == svcScore(best)
+//@ loop 0 invariant range: bestIdx(webServices, requestTokens, it_i) < it_i
+
+// The fold computed by detectWebService is the arg-max the property asks for:
+// an admitted service with the greatest score, the first among equals.
+//@ lemma C03.service-argmax
+//@ props C02 C03
+//@ forall W []*WebService, Q []string, n int, j int
+//@ induction n
+//@ opt opaque svcAdmits svcScore
+//@ requires 0 <= n && n <= len(W)
+//@ ensures range: bestIdx(W, Q, n) < n && bestIdx(W, Q, n) >= -1
+//@ ensures none: bestIdx(W, Q, n) < 0 && 0 <= j && j < n ==> !svcAdmits(W[j], Q)
+//@ ensures admits: bestIdx(W, Q, n) >= 0 ==> svcAdmits(W[bestIdx(W, Q, n)], Q)
+//@ ensures max: bestIdx(W, Q, n) >= 0 && 0 <= j && j < n && svcAdmits(W[j], Q) ==> svcScore(W[j]) <= svcScore(W[bestIdx(W, Q, n)])
+//@ ensures first: bestIdx(W, Q, n) >= 0 && 0 <= j && j < bestIdx(W, Q, n) && svcAdmits(W[j], Q) ==> svcScore(W[j]) < svcScore(W[bestIdx(W, Q, n)])
 
 //@ func (sortableCurlyRoutes).Less
 //@ props C03
@@ -90,8 +117,43 @@ package restful
 //@ func untokenizePath
 //@ props C04
 //@ requires 0 <= offset
+//@ ensures joined: result == joinFrom(parts, offset)
 //@ nopanic
-//@ loop 0 invariant p >= offset
+//@ modifies nothing
+//@ loop 0 invariant range: p >= offset
+//@ loop 0 invariant rest: buffer.String() + joinFrom(parts, p) == joinFrom(parts, offset)
+
+//@ func tokenizePath
+//@ props C01 C02 C04 C14
+//@ ensures tokens: TrimRightSlashEnabled ==> isTokens(result, path)
+//@ ensures fresh: path != "/" ==> fresh(result)
+//@ nopanic
+//@ modifies nothing
+
+//@ func stringTrimSpaceCutset
+//@ props C01 C02 C05
+//@ ensures result == (r == 32)
+//@ nopanic
+//@ modifies nothing
+
+//@ func (Route).matchesAccept
+//@ props C01 C02 C05
+//@ requires noempty: noEmptyEntry(r.Produces)
+//@ ensures admits: result == acceptAdmits(r.Produces, mimeTypesWithQuality)
+//@ nopanic
+//@ modifies nothing
+//@ loop 0 invariant rest: acceptAdmits(r.Produces, mimeTypesWithQuality) == acceptAdmits(r.Produces, remaining)
+//@ loop 1 invariant none: forall(0, it_i, func(k int) bool { return r.Produces[k] != "*/*" && r.Produces[k] != mimeType })
+
+//@ func (Route).matchesContentType
+//@ props C01 C02
+//@ requires noempty: noEmptyEntry(r.Consumes)
+//@ ensures admits: result == ctAdmits(r.Consumes, r.Method, r.allowedMethodsWithoutContentType, mimeTypes)
+//@ nopanic
+//@ modifies nothing
+//@ loop 0 invariant none: forall(0, it_i, func(k int) bool { return r.allowedMethodsWithoutContentType[k] != r.Method })
+//@ loop 1 invariant rest: ctAdmits(r.Consumes, r.Method, r.allowedMethodsWithoutContentType, old(mimeTypes)) == contentListAdmits(r.Consumes, remaining) && len(r.Consumes) > 0
+//@ loop 2 invariant none: forall(0, it_i, func(k int) bool { return r.Consumes[k] != "*/*" && r.Consumes[k] != mimeType })
 
 // ---------------------------------------------------------------------------
 // package-level invariants (assumed at entry of every function, proved for
